@@ -1,5 +1,7 @@
 import SdxProofs.BucketLemmas
 import SdxProofs.MonadLemmas
+import SdxProofs.HarvestLemmas
+import Props.C18
 set_option linter.unusedSectionVars false
 /-!
 # C10 — Bucket counts conserve the released total; microdata realises them exactly
@@ -22,26 +24,8 @@ theorem C10_adjust_sum (cs : List Int) (current target : Int) (hcs : ∀ c ∈ c
     (∀ x ∈ adjustCountsPure (α := α) cs current target, 0 ≤ x) ∧
     (adjustCountsPure (α := α) cs current target).length = cs.length ∧
     ((adjustCountsPure (α := α) cs current target).sum = target ∨
-     (adjustCountsPure (α := α) cs current target).sum = target - 1) := by
-  have hcur : (0 : α) < (current : α) := by exact_mod_cast hpos
-  have hr : (0 : α) ≤ (target : α) / (current : α) := div_nonneg (by exact_mod_cast ht) (le_of_lt hcur)
-  obtain ⟨p1, p2, accf, a0, a1, hs⟩ := adjustLoop_spec ((target : α) / (current : α)) hr cs hcs 0 (le_refl _) (by norm_num)
-  unfold adjustCountsPure
-  simp only [ofInt_eq, Int.cast_zero] at *
-  refine ⟨p1, p2, ?_⟩
-  rw [hsum] at hs
-  have hval : (((adjustLoop ((target : α) / (current : α)) cs 0).sum : Int) : α) = (target : α) - accf := by
-    have : (target : α) / (current : α) * (current : α) = (target : α) := by field_simp
-    linarith
-  -- an integer within [target - 1, target]
-  have h1 : ((adjustLoop ((target : α) / (current : α)) cs 0).sum : Int) ≤ target := by
-    have : (((adjustLoop ((target : α) / (current : α)) cs 0).sum : Int) : α) ≤ (target : α) := by linarith
-    exact_mod_cast this
-  have h2 : target - 1 ≤ ((adjustLoop ((target : α) / (current : α)) cs 0).sum : Int) := by
-    have : ((target - 1 : Int) : α) ≤ (((adjustLoop ((target : α) / (current : α)) cs 0).sum : Int) : α) := by
-      push_cast; linarith
-    exact_mod_cast this
-  omega
+     (adjustCountsPure (α := α) cs current target).sum = target - 1) :=
+  C10_adjust_sum_core cs current target hcs hsum hpos ht
 
 /-- every bucket `harvest` returns has a positive count (whatever the tree, parameters and RNG stream) -/
 theorem C10_harvest_positive [Inhabited α] (E : Env α) (c : FCtx α) (root : Node α) (stream : List Nat)
@@ -81,6 +65,55 @@ theorem C10_microdata_rows [Inhabited α] (E : Env α) (convs : List (Conv α)) 
     induction hall with
     | nil => simp
     | cons hab _ ih => simp [hab, ih]
+
+theorem sum_filter_pos_cells [Inhabited α] (l : List (BCell α)) (h : ∀ b ∈ l, 0 ≤ b.count) :
+    ((l.filter (fun b => decide (b.count > 0))).map (fun b => b.count)).sum = (l.map (fun b => b.count)).sum := by
+  induction l with
+  | nil => rfl
+  | cons a l ih =>
+    have ha := h a (by simp)
+    have ih' := ih (fun x hx => h x (by simp [hx]))
+    by_cases hp : a.count > 0
+    · simp [List.filter_cons, hp, ih']
+    · have : a.count = 0 := by omega
+      simp [List.filter_cons, this, ih']
+
+/-- T10.b  Conservation through the whole harvest — every tree shape, every mixture of suppressed leaves, cached
+sub-trees, refinement and in-place rescaling of shared bucket objects, every RNG stream: the buckets `harvest` returns
+for a well-shaped tree (`Shape`: what every tree a forest hands out satisfies, `C18_forest_tree`) are either none at all
+or their counts add up to the root's released count or one less. (`low_threshold ≥ 0`.) -/
+theorem C10_harvest_conservation [Inhabited α] (E : Env α) (c : FCtx α) (hlt : 0 ≤ c.ap.supp.lt) (root : Node α)
+    (hsh : Shape root) (stream : List Nat) (bs : List (BCell α)) (n : Nat) (h : harvest E c root stream = .ok (bs, n)) :
+    bs = [] ∨ ∃ N, root.noisyCount E c = .ok N ∧ ((bs.map (·.count)).sum = N ∨ (bs.map (·.count)).sum = N - 1) := by
+  unfold harvest at h
+  split at h
+  · cases h
+  · rename_i ids s hrun
+    simp only [Except.ok.injEq, Prod.mk.injEq] at h
+    obtain ⟨rfl, _⟩ := h
+    have hG0 : GInv ({ stream := stream } : HState α) := ⟨fun id hid => by simp at hid, fun p hp => by simp at hp⟩
+    obtain ⟨⟨_, hG, hgood⟩, hcons⟩ := (harvest_all E c hlt 100000).1 root _ ids s hsh hG0 hrun
+    rcases hcons (by simp) with rfl | ⟨N, hN, hsum⟩
+    · left; simp
+    · right
+      refine ⟨N, hN, ?_⟩
+      have e := sum_filter_pos_cells (ids.map fun id => s.cells[id]!) (by
+        intro b hb
+        obtain ⟨id, hid, rfl⟩ := List.mem_map.mp hb
+        exact hG.1 id (hgood.2 id hid).1)
+      have e2 : ((ids.map fun id => s.cells[id]!).map (fun b => b.count)).sum = sumCounts s.cells ids := by
+        rw [List.map_map]; rfl
+      rw [e2] at e
+      rw [e]; exact hsum
+
+/-- T10.b for the trees a forest hands out: whenever `Forest.__init__` and `Forest.get_tree(comb)` finish and the harvest
+of that tree finishes, the buckets are none at all, or add up to the tree's released root count or one less. -/
+theorem C10_forest_harvest_conservation [Inhabited α] (E : Env α) (inp : ForestIn α) (F : Forest α)
+    (hinit : Forest.init E inp = .ok F) (hn : 0 < inp.raw.size) (hlt : 0 ≤ F.ctx.ap.supp.lt) (fuel : Nat) (comb : List Nat)
+    (hk : 1 ≤ comb.length) (t : Node α) (ht : F.tree? E fuel comb = some t) (stream : List Nat) (bs : List (BCell α)) (n : Nat)
+    (h : harvest E F.ctx t stream = .ok (bs, n)) :
+    bs = [] ∨ ∃ N, t.noisyCount E F.ctx = .ok N ∧ ((bs.map (·.count)).sum = N ∨ (bs.map (·.count)).sum = N - 1) :=
+  C10_harvest_conservation E F.ctx hlt t (C18_forest_tree E inp F hinit hn fuel comb t hk ht).1.2.2 stream bs n h
 
 /-- Non-vacuity: `[3,4,5]` sums to 12 > 0 and all counts are non-negative. -/
 example : (∀ c ∈ ([3, 4, 5] : List Int), 0 ≤ c) ∧ ([3, 4, 5] : List Int).sum = 12 := by decide
